@@ -34,7 +34,7 @@ def gen(ctx, strength, nrandom, path):
     return n
 
 
-def decide(ctx, trace, fuzz):
+def decide(ctx, trace, fuzz, replaying=False):
     verdict = os.path.join(ctx.work, "c08_verdict.ndjson")
     r = tla.run_tlc(ctx.specdir(), "CodecTrace.tla", "CodecTrace.cfg", workers=1, timeout=3000, heap="8g",
                     env_extra={"TRACE_FILE": trace, "FUZZ_FILE": fuzz, "VERDICT_FILE": verdict})
@@ -47,11 +47,14 @@ def decide(ctx, trace, fuzz):
     rows = [json.loads(l) for l in open(fuzz)] if os.path.getsize(fuzz) else []
     if v["n"] != len(recs) or v["nfuzz"] != len(rows):
         raise vcheck.Infra("verdict covers %d/%d observations and %d/%d outcome rows" % (v["n"], len(recs), v["nfuzz"], len(rows)))
+    if rows and not replaying and (v.get("missing") or v.get("unknown")):
+        raise vcheck.Infra("decoder totality: corruption classes not exercised %s / not in the specification %s" % (v.get("missing"), v.get("unknown")))
     nbad = 0
     for b in v["bad"]:
         rec = recs[b["i"] - 1]
         nbad += 1
         case = {k: rec[k] for k in ("rec", "fmt", "v", "ok", "got", "stage", "err", "culprit") if k in rec}
+        case["expected_by_spec"] = b.get("exp")
         if "<error>" in b["fields"]:
             cul = "+".join(rec.get("culprit") or []) or "any"
             ctx.violation("C08:%s:%s.%s:error" % (rec["fmt"], rec["rec"], cul),
@@ -86,17 +89,34 @@ def run(ctx):
         "ErrorIfNoField) and pubsubmon configure them; the transports themselves are not run",
         "equality of abstract values (Codec.tla Norm): nil = empty for lists and maps, peer/address lists compared as sets with "
         "multiplicity count, time.Time{} = Unix(0,0) (both mean 'never expires'), instants compared regardless of location",
-        "announced lengths in corrupted msgpack inputs stay <= 2^24 (ugorji/codec allocates what an array32 header announces: "
+        "announced lengths in corrupted msgpack inputs stay <= 2^20 bytes / 2^16 elements (ugorji/codec allocates what a header announces: "
         "4 GiB for 0xffffffff, observed; not a crash)",
         "state export/import is reproduced from cmdutils (List -> json lines -> Decode -> Add) on real dsstate",
     ]
     quick = ctx.quick()
-    # SPEC
-    ctx.tlc("CodecMC.tla", "CodecMC_quick.cfg" if quick else "CodecMC_thorough.cfg", workers=8, timeout=3000)
-    ctx.exhaustive = True
-    # GEN
     cases = os.path.join(ctx.work, "c08_cases.ndjson")
-    n = gen(ctx, 2 if quick else 3, 2000 if quick else 20000, cases)
+    if quick:
+        # SPEC
+        ctx.tlc("CodecMC.tla", "CodecMC_quick.cfg", workers=8, timeout=3000)
+        # GEN
+        n = gen(ctx, 2, 2000, cases)
+    else:
+        # SPEC + GEN in one run: every state of the three-wise model is a case, printed by the (parallel) model
+        # checker while it checks the laws of Proj on it; the seeded full-product sample comes from CodecGen
+        r = ctx.tlc("CodecMC.tla", "CodecMC_emit.cfg", workers=8, timeout=3000, heap="8g")
+        n = gen(ctx, 1, 20000, cases)
+        seen = set(l for l in open(cases))
+        with open(cases, "a") as f:
+            for line in r.out.splitlines():
+                if line.startswith('"{'):
+                    c = json.loads(line) + "\n"
+                    if c not in seen:
+                        seen.add(c)
+                        f.write(c)
+                        n += 1
+        if n < r.distinct // 2:
+            raise vcheck.Infra("the model checker printed %d cases for %d states" % (n, r.distinct))
+    ctx.exhaustive = True
     ctx.log("TLC enumerated %d cases" % n)
     ctx.extra["cases_enumerated_by_tlc"] = n
     # R
@@ -131,5 +151,5 @@ def replay(ctx, path):
         ctx.go_test("c08_codec", run="TestRoundTrip$", infile=cases, env={"VERIF_TRACE": trace, "VERIF_SEED": ctx.seed})
     else:
         raise vcheck.Infra("replay file holds neither an observation nor a decoder input")
-    decide(ctx, trace, fuzz)
+    decide(ctx, trace, fuzz, replaying=True)
     ctx.samples.append(case)
